@@ -370,7 +370,7 @@ type execReply struct {
 	Alloc    uint64 `json:"alloc"`
 	Stopped  bool   `json:"alloc_stopped,omitempty"` // abandoned while running: over the allocation budget
 	Contain  string `json:"contain,omitempty"`       // containment verdict ("" = held or not checked)
-	Harness  string `json:"harness,omitempty"` // harness-side problem
+	Harness  string `json:"harness,omitempty"`       // harness-side problem
 }
 
 type execRequest struct {
